@@ -149,7 +149,7 @@ class Reader:
                 if not self.ignore_warnings:  # avoid the checks for streaming data
                     _logger.warning(
                         f"{sglx_file} : meta data and compressed chunks dont checkout\n"
-                        f"File duration: expected {self.meta['fileTimeSecs']},"
+                        f"File duration: expected {self.meta.get('fileTimeSecs')},"
                         f" actual {ftsec}\n"
                         f"Will attempt to fudge the meta-data information."
                     )
